@@ -399,7 +399,9 @@ def run_to_completion(state: State, external_event: Union[dict, Event]) -> State
                     heads_matching, key=lambda x: x.matching_scores, reverse=True
                 )
 
-                _handle_event_matching(state, event, heads_matching)
+                for head in _handle_event_matching(state, event, heads_matching):
+                    heads_matching.remove(head)
+                    heads_erroring.append(head)
 
                 if isinstance(event, ActionEvent):
                     # Update actions status in all active flows by current action event
@@ -778,36 +780,57 @@ def _get_all_head_candidates(state: State, event: Event) -> List[Tuple[str, str]
 
 def _handle_event_matching(
     state: State, event: Event, heads_matching: List[FlowHead]
-) -> None:
+) -> List[FlowHead]:
+    """Handle the matched heads. Returns the heads for which this raised a runtime error
+    (reported as ColangError; their flows are failed by the caller, see _advance_head_front)."""
+    heads_erroring: List[FlowHead] = []
     for head in heads_matching:
         element = get_element_from_head(state, head)
         flow_state = get_flow_state_from_head(state, head)
 
-        # Create a potential reference from the match
-        if (
-            element is not None
-            and isinstance(element, SpecOp)
-            and isinstance(element.spec, Spec)
-            and element.spec.ref is not None
-        ):
-            flow_state.context.update(
-                _create_event_reference(state, flow_state, element, event)
-            )
+        try:
+            # Create a potential reference from the match
+            if (
+                element is not None
+                and isinstance(element, SpecOp)
+                and isinstance(element.spec, Spec)
+                and element.spec.ref is not None
+            ):
+                flow_state.context.update(
+                    _create_event_reference(state, flow_state, element, event)
+                )
 
-        if (
-            event.name == InternalEvents.START_FLOW
-            and event.arguments["flow_id"] == flow_state.flow_id
-            and head.position == 0
-        ):
-            _start_flow(state, flow_state, event.arguments)
-        elif event.name == InternalEvents.FLOW_STARTED:
-            # Add started flow to active scopes
-            # TODO: Make this independent from matching to FlowStarted event since otherwise it could be added elsewhere
-            for scope_uid in head.scope_uids:
-                if scope_uid in flow_state.scopes:
-                    flow_state.scopes[scope_uid][0].append(
-                        event.arguments["source_flow_instance_uid"]
-                    )
+            if (
+                event.name == InternalEvents.START_FLOW
+                and event.arguments["flow_id"] == flow_state.flow_id
+                and head.position == 0
+            ):
+                _start_flow(state, flow_state, event.arguments)
+            elif event.name == InternalEvents.FLOW_STARTED:
+                # Add started flow to active scopes
+                # TODO: Make this independent from matching to FlowStarted event since otherwise it could be added elsewhere
+                for scope_uid in head.scope_uids:
+                    if scope_uid in flow_state.scopes:
+                        flow_state.scopes[scope_uid][0].append(
+                            event.arguments["source_flow_instance_uid"]
+                        )
+        except Exception as e:
+            # A runtime error while handling the match fails only the flow of this head
+            log.warning(
+                "Flow '%s' failed while handling a match due to Colang runtime exception: %s",
+                flow_state.flow_id,
+                e,
+                exc_info=True,
+            )
+            colang_error_event = Event(
+                name="ColangError",
+                arguments={
+                    "type": str(type(e).__name__),
+                    "error": str(e),
+                },
+            )
+            _push_internal_event(state, colang_error_event)
+            heads_erroring.append(head)
         # elif event.name == InternalEvents.FINISH_FLOW:
         #     _finish_flow(new_state, flow_state)
         # TODO: Introduce default matching statements with heads for all flows
@@ -817,6 +840,8 @@ def _handle_event_matching(
         #     pass
         # elif event.name == "PauseFlow":
         #     pass
+
+    return heads_erroring
 
 
 def _resolve_action_conflicts(
